@@ -148,3 +148,19 @@ func IsBuiltinCall(v ssa.Value, name string) bool {
 	b, ok := c.Call.Value.(*ssa.Builtin)
 	return ok && b.Name() == name
 }
+
+// ForwardReachBlocks returns the blocks reachable from b (excluding b unless on a cycle).
+func ForwardReachBlocks(b *ssa.BasicBlock) map[*ssa.BasicBlock]bool {
+	seen := map[*ssa.BasicBlock]bool{}
+	st := append([]*ssa.BasicBlock{}, b.Succs...)
+	for len(st) > 0 {
+		x := st[len(st)-1]
+		st = st[:len(st)-1]
+		if seen[x] {
+			continue
+		}
+		seen[x] = true
+		st = append(st, x.Succs...)
+	}
+	return seen
+}
